@@ -333,18 +333,14 @@ func ErrTrapWithFunction(f *syntax.File) bool {
 }
 
 // TestPrecedenceMisparse reports whether the program has a [[ ]] expression
-// that the parser groups differently from bash: a "!" applied directly to an
-// && or || expression (written without parentheses), or an && whose right
-// side is directly an || expression; or a test/[ command mixing "!" with
-// -a/-o, or -a with -o.
+// that the parser groups differently from bash: an && whose right side is
+// directly an || expression ("a && b || c" is read as "a && (b || c)"); or a
+// test/[ command mixing "!" with -a/-o, or -a with -o (interp/test_classic.go
+// gives "!" the lowest precedence and groups -a/-o to the right).
 func TestPrecedenceMisparse(f *syntax.File) bool {
 	found := false
 	syntax.Walk(f, func(n syntax.Node) bool {
 		switch x := n.(type) {
-		case *syntax.UnaryTest:
-			if b, ok := x.X.(*syntax.BinaryTest); ok && x.Op == syntax.TsNot && (b.Op == syntax.AndTest || b.Op == syntax.OrTest) {
-				found = true
-			}
 		case *syntax.BinaryTest:
 			if b, ok := x.Y.(*syntax.BinaryTest); ok && x.Op == syntax.AndTest && b.Op == syntax.OrTest {
 				found = true
@@ -596,15 +592,41 @@ func ErrexitCompoundIgnoredFailure(f *syntax.File) bool {
 
 // StatusAfterSubstitution reports whether a simple command expands $? after
 // a command substitution of the same command (bash: the substitution's
-// status; the interpreter: the previous command's).
+// status; the interpreter: the previous command's), or calls a function of
+// the program that reads $? with a command substitution among the arguments.
 func StatusAfterSubstitution(f *syntax.File) bool {
+	readsStatus := map[string]bool{}
+	syntax.Walk(f, func(n syntax.Node) bool {
+		if fd, ok := n.(*syntax.FuncDecl); ok && fd.Name != nil {
+			syntax.Walk(fd.Body, func(m syntax.Node) bool {
+				if p, ok := m.(*syntax.ParamExp); ok && p.Param != nil && p.Param.Value == "?" {
+					readsStatus[fd.Name.Value] = true
+				}
+				return true
+			})
+		}
+		return true
+	})
 	found := false
-	check := func(root syntax.Node) {
+	check := func(root syntax.Node, fn bool) {
 		seen := false
 		syntax.Walk(root, func(n syntax.Node) bool {
 			switch x := n.(type) {
 			case *syntax.CmdSubst:
+				if seen {
+					// $? at the start of a later substitution of the same
+					// command sees the earlier one's status, too
+					syntax.Walk(x, func(m syntax.Node) bool {
+						if p, ok := m.(*syntax.ParamExp); ok && p.Param != nil && p.Param.Value == "?" {
+							found = true
+						}
+						return !found
+					})
+				}
 				seen = true
+				if fn {
+					found = true
+				}
 				return false
 			case *syntax.ParamExp:
 				if seen && x.Param != nil && x.Param.Value == "?" {
@@ -617,9 +639,9 @@ func StatusAfterSubstitution(f *syntax.File) bool {
 	syntax.Walk(f, func(n syntax.Node) bool {
 		switch x := n.(type) {
 		case *syntax.CallExpr:
-			check(x)
+			check(x, readsStatus[cmdName(x)])
 		case *syntax.DeclClause:
-			check(x)
+			check(x, false)
 		}
 		return !found
 	})
@@ -916,5 +938,66 @@ func ForContinuesAfterReturn(f *syntax.File) bool {
 		})
 	}
 	visit(f, false)
+	return found
+}
+
+// setsExitTrap reports whether the program installs an EXIT trap.
+func setsExitTrap(f *syntax.File) bool {
+	found := false
+	syntax.Walk(f, func(n syntax.Node) bool {
+		if c, ok := n.(*syntax.CallExpr); ok && cmdName(c) == "trap" && len(c.Args) > 2 && c.Args[1].Lit() != "-" {
+			for _, a := range c.Args[2:] {
+				if l := a.Lit(); l == "EXIT" || l == "0" || l == "exit" {
+					found = true
+				}
+			}
+		}
+		return !found
+	})
+	return found
+}
+
+// ExitTrapUnderRedirection reports whether the program installs an EXIT trap
+// and has a command with a redirection of standard output inside which the
+// shell may exit (an exit command, a function call, or anything at all when
+// errexit is on): bash runs the trap with the redirection still in place,
+// the interpreter after it was undone.
+func ExitTrapUnderRedirection(f *syntax.File) bool {
+	if !setsExitTrap(f) {
+		return false
+	}
+	funcs := funcNames(f)
+	errexit := setsErrexit(f)
+	found := false
+	syntax.Walk(f, func(n syntax.Node) bool {
+		st, ok := n.(*syntax.Stmt)
+		if !ok || st.Cmd == nil {
+			return !found
+		}
+		out := false
+		for _, rd := range st.Redirs {
+			switch rd.Op {
+			case syntax.RdrOut, syntax.AppOut, syntax.RdrAll, syntax.AppAll, syntax.ClbOut, syntax.DplOut, syntax.RdrInOut:
+				if rd.N == nil || rd.N.Value == "1" {
+					out = true
+				}
+			}
+		}
+		if !out {
+			return !found
+		}
+		if errexit {
+			found = true
+		}
+		syntax.Walk(st.Cmd, func(m syntax.Node) bool {
+			if c, ok := m.(*syntax.CallExpr); ok {
+				if name := cmdName(c); name == "exit" || funcs[name] || len(c.Args) > 0 && name == "" {
+					found = true
+				}
+			}
+			return !found
+		})
+		return !found
+	})
 	return found
 }
